@@ -102,7 +102,7 @@ def build_ref_objects(name, sources, defines=(), sanitize=False):
 # ----------------------------------------------------------------------------- CBMC
 CBMC_FLAGS = ['--unwinding-assertions', '--signed-overflow-check', '--undefined-shift-check',
               '--div-by-zero-check', '--drop-unused-functions', '--no-malloc-may-fail', '--no-standard-checks',
-              '--bounds-check', '--pointer-check', '--pointer-primitive-check', '--object-bits', '12']
+              '--bounds-check', '--pointer-check', '--pointer-primitive-check', '--object-bits', '12', '--slice-formula']
 
 def goto_cc(out, sources, defines=(), includes=()):
     cmd = ['goto-cc', '-o', out] + ['-D' + x for x in defines] + ['-I' + x for x in includes] + ['-I' + os.path.join(VERIF, 'rt')] + list(sources)
@@ -179,7 +179,9 @@ def run_instance(lib, harness, name, defines, unwind, ir_unwind=None, timeout=30
     uset = []
     if ir_unwind is not None:
         for lid, fn in list_loops(out):
-            if fn.startswith('ir_'): uset.append('%s:%d' % (lid, ir_unwind))
+            if fn.startswith('ir_'):
+                b = ir_unwind(fn) if callable(ir_unwind) else ir_unwind
+                if b is not None: uset.append('%s:%d' % (lid, b))
     r = cbmc(out, function='harness', unwind=unwind, unwindset=uset, timeout=timeout, extra=extra)
     r['name'] = name; r['defines'] = list(defines); r['binary'] = out; r['unwindset'] = uset; r['unwind'] = unwind
     return r
@@ -187,7 +189,8 @@ def run_instance(lib, harness, name, defines, unwind, ir_unwind=None, timeout=30
 def cbmc_trace_inputs(binary, unwind, unwindset, prop, names, timeout=300, extra=()):
     """re-run with --trace for one failed property; return the last value assigned to each element of the named
     harness variables (values are read from the bit pattern CBMC prints, which is unambiguous)"""
-    cmd = ['cbmc', binary] + CBMC_FLAGS + ['--function', 'harness', '--unwind', str(unwind), '--trace'] + list(extra)
+    # no --slice-formula here: it removes the assignments to the recording variables from the trace
+    cmd = ['cbmc', binary] + [f for f in CBMC_FLAGS if f != '--slice-formula'] + ['--function', 'harness', '--unwind', str(unwind), '--trace'] + list(extra)
     # unwinding / recursion assertions cannot be selected with --property: take the first failure instead
     cmd += ['--stop-on-fail'] if ('.unwind.' in prop or '.recursion' in prop) else ['--property', prop]
     if unwindset: cmd += ['--unwindset', ','.join(unwindset)]
